@@ -938,7 +938,7 @@ def heapAfter (s : SchemaStore) (f : Nat → Option Nat) (o : Nat) : Schema :=
   if f (s.owner o) = some o then (s.heap o).markPersisted else s.heap o
 
 def flushed (s : SchemaStore) (f : Nat → Option Nat) : SchemaStore :=
-  { s with heap := heapAfter s f, frz := none, disk := diskAfter s f }
+  { s with heap := heapAfter s f, frz := none, disk := diskAfter s f, cache := fun _ => none }
 
 theorem flush_active {s : SchemaStore} {f : Nat → Option Nat} (h : s.frz = some (f, false)) :
     s.flush = flushed s f := by
@@ -1149,6 +1149,83 @@ theorem schema_prepareE_spec {s : SchemaStore} {a b : Nat} (inv : SchInv s a b) 
     obtain ⟨i1, l1, d1⟩ := schema_dropEmpty_spec inv
     obtain ⟨i2, l2, d2⟩ := schema_prepare_spec i1
     exact ⟨by simpa using i2, fun m => by simp [l2, l1], by simp [d2, d1]⟩
+
+/-! ### the create path never consults the LRU cache -/
+
+def SchemaStore.withCache (s : SchemaStore) (c : Nat → Option Nat) : SchemaStore := { s with cache := c }
+
+theorem getSchema_withCache (s : SchemaStore) (c : Nat → Option Nat) (m : Nat) :
+    (s.withCache c).getSchema m = ((s.getSchema m).1.withCache c, (s.getSchema m).2) := by
+  unfold SchemaStore.getSchema
+  have h1 : (s.withCache c).memLookup m = s.memLookup m := rfl
+  have h2 : (s.withCache c).disk = s.disk := rfl
+  rw [h1, h2]
+  cases s.memLookup m with
+  | some o => rfl
+  | none =>
+    cases s.disk m with
+    | some sc => rfl
+    | none => rfl
+
+theorem adopt_withCache (s : SchemaStore) (c : Nat → Option Nat) (m : Nat) (p : SPtr) :
+    (s.withCache c).adopt m p = ((s.adopt m p).1.withCache c, (s.adopt m p).2) := by
+  cases p with
+  | obj o =>
+    rw [adopt_obj, adopt_obj]
+    unfold adoptAt
+    have h : (s.withCache c).cur = s.cur := rfl
+    rw [h]
+    cases s.cur m <;> rfl
+  | nil =>
+    rw [adopt_nil, adopt_nil]
+    unfold adoptAt
+    have h : ((s.withCache c).alloc m {}).1.cur = (s.alloc m {}).1.cur := rfl
+    rw [h]
+    cases (s.alloc m {}).1.cur m <;> rfl
+
+theorem fieldLocked_withCache (lim : Limits) (s : SchemaStore) (c : Nat → Option Nat) (m f : Nat) (p : SPtr) :
+    fieldLocked lim (s.withCache c) m f p = ((fieldLocked lim s m f p).1.withCache c, (fieldLocked lim s m f p).2) := by
+  unfold fieldLocked
+  rw [adopt_withCache]
+  simp only []
+  have hh : ((s.adopt m p).1.withCache c).heap = (s.adopt m p).1.heap := rfl
+  rw [hh]
+  cases ((s.adopt m p).1.heap (s.adopt m p).2).findField f with
+  | some i => rfl
+  | none => simp only []; split <;> rfl
+
+theorem tagKeyLocked_withCache (lim : Limits) (s : SchemaStore) (c : Nat → Option Nat) (ctr m k : Nat) (p : SPtr) :
+    tagKeyLocked lim (s.withCache c) ctr m k p =
+      ((tagKeyLocked lim s ctr m k p).1.withCache c, (tagKeyLocked lim s ctr m k p).2.1, (tagKeyLocked lim s ctr m k p).2.2) := by
+  unfold tagKeyLocked
+  rw [adopt_withCache]
+  simp only []
+  have hh : ((s.adopt m p).1.withCache c).heap = (s.adopt m p).1.heap := rfl
+  rw [hh]
+  cases ((s.adopt m p).1.heap (s.adopt m p).2).findTagKey k with
+  | some i => rfl
+  | none => simp only []; split <;> rfl
+
+theorem lockedPtr_withCache (v : SchemaVariant) (s : SchemaStore) (c : Nat → Option Nat) (m : Nat) (p : SPtr) :
+    lockedPtr v (s.withCache c) m p = ((lockedPtr v s m p).1.withCache c, (lockedPtr v s m p).2) := by
+  cases v with
+  | snapshotOutside => rfl
+  | lookupLocked => exact getSchema_withCache s c m
+
+/-- `genFieldID` / `genTagKeyID` (either variant) give the same answer and leave the same store whatever
+the LRU cache holds: the create path reads the memory maps and the kv family, never the cache -/
+theorem genField_withCache (v : SchemaVariant) (lim : Limits) (s : SchemaStore) (c : Nat → Option Nat) (m f : Nat) :
+    genField v lim (s.withCache c) m f = ((genField v lim s m f).1.withCache c, (genField v lim s m f).2) := by
+  unfold genField
+  simp only []
+  rw [getSchema_withCache, lockedPtr_withCache, fieldLocked_withCache]
+
+theorem genTagKey_withCache (v : SchemaVariant) (lim : Limits) (s : SchemaStore) (c : Nat → Option Nat) (ctr m k : Nat) :
+    genTagKey v lim (s.withCache c) ctr m k =
+      ((genTagKey v lim s ctr m k).1.withCache c, (genTagKey v lim s ctr m k).2.1, (genTagKey v lim s ctr m k).2.2) := by
+  unfold genTagKey
+  simp only []
+  rw [getSchema_withCache, lockedPtr_withCache, tagKeyLocked_withCache]
 
 /-- within one metric, field ids and tag key ids identify the name -/
 theorem fieldView_inj {s : SchemaStore} {a b : Nat} (inv : SchInv s a b) (hba : b ≤ a) {m f f' i : Nat}
